@@ -58,8 +58,13 @@ import (
 //
 // WithCompression() in esgzOpts will be ignored but used the one for external TOC instead.
 func LayerConvertFunc(esgzOpts []estargz.Option, compressionLevel int) (convertFunc converter.ConvertFunc, finalize func(ctx context.Context, cs content.Store, ref string, desc *ocispec.Descriptor) (*images.Image, error)) {
+	// explicitly copy the incoming esgzOpts parameter: appending to a slice with spare capacity from
+	// concurrently running layer conversions makes them overwrite each other's compression
+	copiedOpts := make([]estargz.Option, len(esgzOpts))
+	copy(copiedOpts, esgzOpts)
+
 	return layerConvert(func(c estargz.Compression) converter.ConvertFunc {
-		return estargzconvert.LayerConvertFunc(append(esgzOpts, estargz.WithCompression(c))...)
+		return estargzconvert.LayerConvertFunc(append(copiedOpts, estargz.WithCompression(c))...)
 	}, compressionLevel)
 }
 
